@@ -259,6 +259,18 @@ func runC17(c *Ctx) {
 	r.Rule("R1", "every store to Config.Me stores a non-nil value: a fresh allocation, the result of a function none of whose module implementations returns nil, or a value guarded by a dominating != nil; Me() returns that field")
 	r.Rule("R2", "001 adopts line.Target() (ReNick(me.Nick, target) when tracking, store to Config.Me.Nick otherwise); 433 calls Nick(NewNick(Args[1])) on every path and adopts it only when Args[1] is the current nick; the untracked NICK handler stores Args[0] under line.Nick == current nick; the tracked one calls ReNick(line.Nick, Args[0]) unconditionally; only listed conditions guard these effects")
 	r.Rule("R3", "DefaultNewNick returns old[:len(old)-1] + string(c) with c < 0x80 on every arm (one byte: same length, same prefix)")
+	r.Rule("R4", "with tracking on Me() is the tracker's record, so it follows a rename only if the tracker's ReNick re-keys everything on every successful path (shared with C12.R3)")
+	r.Rule("R5", "the built-in handlers that keep the nick current (internal table: 001, 433, NICK) stay registered for the life of the client: no Remover obtained by registering an internal-table handler is ever invoked, whichever way tracking is switched")
+	c.trackerRules(map[string]string{"R3": "R4"})
+	if g, _ := c.Client.Members["intHandlers"].(*ssa.Global); r.Anchor("R5", "intHandlers table and (*Conn).handle", g != nil && c.Func(c.Client, "(*Conn).handle") != nil) {
+		nRegs, bad := c.permanentRegistrations(g, c.Func(c.Client, "(*Conn).handle"))
+		r.Floor("R5", "registration calls fed from the internal table", nRegs, 1)
+		why := "no Remover of an internal-table registration reaches a Remove call"
+		if len(bad) > 0 {
+			why = strings.Join(bad, "; ")
+		}
+		r.Add("R5", "internal-handlers-permanent", "-", "", "built-in handlers are never unregistered", len(bad) == 0, why)
+	}
 	// ---- R1
 	n := 0
 	for _, fn := range c.clientFuncs() {
@@ -512,6 +524,8 @@ func runC18(c *Ctx) {
 	r.Rule("R2", "every dial call dials Config.Server; in the connect routine the only stores to it are JoinHostPort(Server, \"6697\") under SSL / \"6667\" otherwise, both on the !hasPort(Server) edge, before any dial")
 	r.Rule("R3", "the PING handler calls Pong(line.Args[0]); lines reach handlers whole (delimiter framing, shared with C03.R1)")
 	r.Rule("R4", "the ping goroutine is spawned exactly under PingFreq > 0; it pings on each tick of a ticker of period PingFreq")
+	r.Rule("R5", "the registration lines are the first the new connection sends: every successful connect starts from a newly made outbound (and inbound) queue on every path, so nothing queued during or before an outage precedes or duplicates PASS/NICK/USER (shared with C07.R4)")
+	c.freshQueuesRule("R5")
 	// ---- R1
 	h := a.IntTable["REGISTER"]
 	r.Anchor("R1", "REGISTER handler", h != nil)
@@ -1012,6 +1026,8 @@ func runC19(c *Ctx) {
 	r.Rule("R2", "NAK, 903, 904, 908 handlers call Cap(END) on every path; on every path of the ACK handler exactly one of {Authenticate called, Cap(END) called} holds (flag-sensitive exploration)")
 	r.Rule("R3", "Authenticate is called only from the ACK handler under cap == sasl && Sasl != nil and from the AUTHENTICATE handler; the held-set is modified only by the ACK handler")
 	r.Rule("R4", "request splitting: every element read from the argument list is used (concatenated, measured, stored or passed on) on every path before the next iteration or the return (no element is read and then dropped)")
+	r.Rule("R5", "the CAP handler passes every LS, ACK and NAK reply - whatever its capability list, an empty one included - to its sub-handler: the only conditions that decide whether a sub-handler is reached are argument-count tests and the comparison of the subcommand parameter with LS / ACK / NAK")
+	c.capDispatchRule("R5")
 	capFn := c.Func(c.Client, "(*Conn).Cap")
 	authFn := c.Func(c.Client, "(*Conn).Authenticate")
 	r.Anchor("R1", "(*Conn).Cap and (*Conn).Authenticate", capFn != nil && authFn != nil)
@@ -1546,4 +1562,88 @@ func (c *Ctx) noElementSkipped(fn *ssa.Function, args ssa.Value) (bool, string) 
 		}
 	}
 	return true, fmt.Sprintf("%d content reads, each consumed on every path; %d reads only measure the element", len(reads), measured)
+}
+
+// capDispatchRule: in the CAP handler each call that hands the capability
+// list on is guarded only by argument-count tests and subcommand comparisons.
+func (c *Ctx) capDispatchRule(rule string) {
+	r, a := c.R, c.A
+	h := a.IntTable["CAP"]
+	if !r.Anchor(rule, "CAP handler in the internal table", h != nil) {
+		return
+	}
+	r.Funcs[c.FuncKey(h)] = true
+	line := ssa.Value(h.Params[len(h.Params)-1])
+	seenSub := map[string]bool{}
+	n := 0
+	funcInstrs(h, func(in ssa.Instruction) {
+		call, ok := in.(*ssa.Call)
+		if !ok {
+			return
+		}
+		callee := call.Call.StaticCallee()
+		if callee == nil || callee.Package() != c.Client || callee.Signature.Recv() == nil {
+			return
+		}
+		if rn := recvNamed(callee); rn == nil || rn.Obj().Name() != "Conn" {
+			return
+		}
+		// a sub-handler takes the capability list
+		takesList := false
+		for _, arg := range call.Call.Args[1:] {
+			if _, isSl := arg.Type().Underlying().(*types.Slice); isSl {
+				takesList = true
+			}
+		}
+		if !takesList {
+			return
+		}
+		n++
+		ok2, why := true, ""
+		for _, cd := range CondsAt(call.Block()) {
+			cd = unwrapNot(cd)
+			good := false
+			switch v := cd.V.(type) {
+			case *ssa.Call:
+				if f := v.Call.StaticCallee(); f != nil && f.Name() == "argslen" {
+					good = true
+				}
+			case *ssa.BinOp:
+				for _, side := range []ssa.Value{v.X, v.Y} {
+					if lc, isC := side.(*ssa.Call); isC {
+						if b, isB := lc.Call.Value.(*ssa.Builtin); isB && b.Name() == "len" {
+							if fv, base := loadedField(lc.Call.Args[0]); fv != nil && fv.Name() == "Args" && base == line {
+								good = true
+							}
+						}
+					}
+				}
+				other := v.Y
+				k, isK := constString(v.X)
+				if !isK {
+					k, isK = constString(v.Y)
+					other = v.X
+				}
+				if isK && (v.Op == token.EQL || v.Op == token.NEQ) {
+					if _, isArg := c.lineArgIndex(other, line); isArg {
+						good = true
+						if (v.Op == token.EQL) == cd.True {
+							seenSub[k] = true
+						}
+					}
+				}
+			}
+			if !good {
+				ok2, why = false, "reached only under the condition at "+c.InstrPos(cd.If)+" ("+cd.V.String()+"), which is neither an argument-count test nor a subcommand comparison"
+			}
+		}
+		if ok2 {
+			why = "guarded only by argument-count tests and subcommand comparisons"
+		}
+		r.Add(rule, fmt.Sprintf("cap-dispatch:%s", callee.Name()), c.InstrPos(call), c.FuncKey(h), "sub-handler "+callee.Name()+" is reached for every reply with its subcommand", ok2, why)
+	})
+	r.Floor(rule, "sub-handler calls in the CAP handler", n, 3)
+	for _, sub := range []string{"LS", "ACK", "NAK"} {
+		r.Add(rule, "cap-subcommand:"+sub, c.Pos(h.Pos()), c.FuncKey(h), "a sub-handler is selected by subcommand "+sub, seenSub[sub], "comparison of the subcommand parameter with "+sub+" guarding a sub-handler call")
+	}
 }
